@@ -56,8 +56,13 @@ pub fn o_archive(input: &[u8], p: &P) -> Out {
 		let gr = read_slpp(&a1, false).map_err(|f| e(&format!("slpp-read-failed:{}", f.key()), f.describe()))?;
 		let parse = |n: &str| -> Result<Value, (String, String)> { serde_json::from_slice::<Value>(get(n).unwrap()).map_err(|x| e("invalid-json", format!("{} is not valid JSON: {}", n, x))) };
 		let pj = parse("peppi.json")?;
-		if pj["version"] != json!([2, 0, 0]) {
-			return Err(e("peppi-json", format!("peppi.json version {:?}", pj["version"])));
+		// the format version the writer stamps: three integers 0..255, not below the minimum the reader supports
+		// (which number it is, is the writer's business: a format revision may raise it)
+		let ver_ok = pj["version"].as_array().map_or(false, |a| {
+			a.len() == 3 && a.iter().all(|x| x.as_u64().map_or(false, |n| n <= 255)) && (a[0].as_u64(), a[1].as_u64(), a[2].as_u64()) >= (Some(2), Some(0), Some(0))
+		});
+		if !ver_ok {
+			return Err(e("peppi-json", format!("peppi.json version {:?} is not a triple of integers 0..255 at or above 2.0.0", pj["version"])));
 		}
 		if pj.get("slp_hash").and_then(|h| h.as_str()).map(|s| s.to_string()) != gr.hash {
 			return Err(e("peppi-json", format!("peppi.json slp_hash {:?} vs reconstructed hash {:?}", pj.get("slp_hash"), gr.hash)));
